@@ -37,7 +37,7 @@ use std::any::TypeId;
 use std::collections::BTreeMap;
 use std::sync::Arc;
 
-const RULE: &str = "topologies: line / star / hub / ring of 1..5 ArpRouters joining 2..6 /24 subnets, 1..2 hosts per subnet (Udp+Ipv4+Arp(SubnetInfo)+Pci+Recorder), static routes correct or mutated (missing entry, wrong neighbour = loop, default route, black-hole gateway, /32 override, wrongly-direct); 2 of 5 cases add NESTED route sets to a router (2..6 entries of lengths 32/31/30/25..29/24/17..23/16/8/1/0 around a host address, host bits set, sibling prefixes, duplicates of one prefix, shuffled, each with its own next hop or slot) and aim datagrams at that address and its /31 and /30 siblings; 1 of 3 sequential cases has TIME STRUCTURE (the ARP frames sent by / the ARP requests for one host or router are lost by the network for some units = whole retry budgets, or a host claims its address late, with datagrams before, during and after); the delivery expectation of every datagram is computed by following the configured tables with a reference longest-prefix match, and every frame a router emits is checked against that reference (slot, next hop); units: sequential sends (udp path TTL 30, raw path TTL 0..255, protocols 17/6/1, fragments, wrong ports, unknown destinations) each run to quiescence and compared frame-for-frame (ARP + IPv4) with the model, and bursts of simultaneous sends compared on IPv4 frames / tap deliveries / application deliveries; paused-clock current_thread runtime; non-trivial = a datagram crossed >= 1 router (>= 2 IPv4 frames with its token); distinct = hash of the case's op lines";
+const RULE: &str = "topologies: line / star / hub / ring of 1..5 ArpRouters joining 2..6 /24 subnets, 1..2 hosts per subnet (Udp+Ipv4+Arp(SubnetInfo)+Pci+Recorder); 2 of 5 cases use a WIDE address plan (subnets /16../23, every host and router interface at an address whose last octet is biased to 255 / 0 / 254 / 1, i.e. ordinary host addresses that look like /24 broadcast or network addresses) on shapes with SEVERAL routers on the sender's subnet that all have a usable route (hub, ring, 2..3 parallel routers between the same subnets, redundant star), half of their datagrams through Udp::open_for_sending; static routes correct or mutated (missing entry, wrong neighbour = loop, default route, black-hole gateway, /32 override, wrongly-direct); 2 of 5 cases add NESTED route sets to a router (2..6 entries of lengths 32/31/30/25..29/24/17..23/16/8/1/0 around a host address, host bits set, sibling prefixes, duplicates of one prefix, shuffled, each with its own next hop or slot) and aim datagrams at that address and its /31 and /30 siblings; 1 of 3 sequential cases has TIME STRUCTURE (the ARP frames sent by / the ARP requests for one host or router are lost by the network for some units = whole retry budgets, or a host claims its address late, with datagrams before, during and after); the delivery expectation of every datagram is computed by following the configured tables with a reference longest-prefix match, and every frame a router emits is checked against that reference (slot, next hop); units: sequential sends (udp path TTL 30, raw path TTL 0..255, protocols 17/6/1, fragments, wrong ports, unknown destinations) each run to quiescence and compared frame-for-frame (ARP + IPv4) with the model, and bursts of simultaneous sends compared on IPv4 frames / tap deliveries / application deliveries; paused-clock current_thread runtime; non-trivial = a datagram crossed >= 1 router (>= 2 IPv4 frames with its token); distinct = hash of the case's op lines";
 
 const T0_US: u64 = 1_000;
 /// length of a unit's time window.  The scripted sends of ONE host run one after the other, and a
@@ -405,11 +405,75 @@ struct Graph {
     /// routers: list of nets per router (slot order)
     routers: Vec<Vec<usize>>,
     nets: usize,
+    /// address plan: network id and prefix length per net.  Narrow plan: 10.0.n.0/24, routers at
+    /// .1+r, hosts at .10/.11.  WIDE plan: 10.(n+1).0.0 with a prefix length 16..23, every machine
+    /// at an offset whose last octet is biased to 255 / 0 / 254 / 1 (ordinary host addresses there)
+    base: Vec<u32>,
+    plen: Vec<u32>,
+    /// router addresses per (router, net) under the wide plan
+    rip: BTreeMap<(usize, usize), u32>,
+    /// host offsets handed out per net (wide plan)
+    used: Vec<Vec<u32>>,
+    wide: bool,
 }
 
 impl Graph {
+    fn new(routers: Vec<Vec<usize>>, nets: usize) -> Graph {
+        Graph { routers, nets, base: (0..nets).map(net_base).collect(), plen: vec![24; nets], rip: BTreeMap::new(), used: vec![vec![]; nets], wide: false }
+    }
+    /// switch to the wide plan and give every router interface its address
+    fn widen(&mut self, rng: &mut Rng) {
+        self.wide = true;
+        for n in 0..self.nets {
+            self.plen[n] = *rng.pick(&[16u32, 16, 17, 20, 22, 23, 23]);
+            self.base[n] = (10u32 << 24) | ((n as u32 + 1) << 16);
+        }
+        for r in 0..self.routers.len() {
+            for n in self.routers[r].clone() {
+                let a = self.edge_addr(n, rng);
+                self.rip.insert((r, n), a);
+            }
+        }
+    }
+    /// a fresh address of net `n` under the wide plan: any value of the host part except all-zeros
+    /// (the network id) and all-ones (the directed broadcast), the LAST OCTET biased to 255, 0, 254, 1
+    fn edge_addr(&mut self, n: usize, rng: &mut Rng) -> u32 {
+        let bits = 32 - self.plen[n];
+        let top = (1u32 << bits) - 1; // all-ones host part
+        loop {
+            let hi = rng.below(1u64 << (bits - 8)) as u32;
+            let rl = rng.below(256) as u32;
+            let lo = *rng.pick(&[255u32, 255, 255, 0, 0, 254, 1, rl]);
+            let off = (hi << 8) | lo;
+            if off != 0 && off != top && !self.used[n].contains(&off) {
+                self.used[n].push(off);
+                return self.base[n] | off;
+            }
+        }
+    }
     fn router_ip(&self, r: usize, net: usize) -> u32 {
-        net_base(net) + 1 + r as u32
+        if self.wide {
+            // a router that does not exist / is not attached there: an address nobody owns
+            self.rip.get(&(r, net)).copied().unwrap_or_else(|| self.nobody(net))
+        } else {
+            net_base(net) + 1 + r as u32
+        }
+    }
+    /// an address inside net `n` that no machine owns
+    fn nobody(&self, n: usize) -> u32 {
+        if !self.wide || n >= self.nets {
+            return net_base(n) + 200;
+        }
+        let off = [200u32, 201, 0x14d, 99, 100, 300].into_iter().find(|o| !self.used[n].contains(o)).unwrap_or(77);
+        self.base[n] | off
+    }
+    /// another one (the "nobody there" destinations)
+    fn nobody2(&self, n: usize) -> u32 {
+        if !self.wide || n >= self.nets {
+            return net_base(n) + 99;
+        }
+        let off = [0xffu32, 0x1fe, 99, 98, 97].into_iter().find(|o| !self.used[n].contains(o)).unwrap_or(78);
+        self.base[n] | off
     }
     /// BFS over routers (adjacent = share a net): for router `r`, per destination net:
     /// None = unreachable, Some((None, slot, 0)) = attached, Some((Some(next router), slot, dist))
@@ -457,29 +521,54 @@ impl Graph {
 
 fn gen_case(rng: &mut Rng) -> CaseD {
     // ---- shape ----
-    let shape = rng.below(4);
-    let g = match shape {
+    // WIDE address plan (2 of 5 cases): subnets /16../23 whose machines sit at addresses ending in
+    // .255 / .0 / .254 / .1 (ordinary host addresses inside a network wider than /24), on shapes with
+    // SEVERAL routers on the sender's subnet, all with a usable route to the destination
+    let wide = rng.chance(2, 5);
+    let shape = if wide { *rng.pick(&[2u64, 3, 4, 4, 5, 0, 1]) } else { rng.below(6) };
+    let mut g = match shape {
         0 => {
             // line: router i joins net i and i+1
             let r = rng.range(1, 5) as usize;
-            Graph { routers: (0..r).map(|i| vec![i, i + 1]).collect(), nets: r + 1 }
+            Graph::new((0..r).map(|i| vec![i, i + 1]).collect(), r + 1)
         }
         1 => {
             // star: one router joins all nets
             let s = rng.range(2, 6) as usize;
-            Graph { routers: vec![(0..s).collect()], nets: s }
+            Graph::new(vec![(0..s).collect()], s)
         }
         2 => {
             // hub: net 0 in the middle, router i joins net 0 and leaf net i+1
-            let r = rng.range(1, 5) as usize;
-            Graph { routers: (0..r).map(|i| vec![0, i + 1]).collect(), nets: r + 1 }
+            let r = rng.range(if wide { 2 } else { 1 }, 5) as usize;
+            Graph::new((0..r).map(|i| vec![0, i + 1]).collect(), r + 1)
         }
-        _ => {
+        3 => {
             // ring: router i joins net i and net (i+1) mod r
             let r = rng.range(2, 5) as usize;
-            Graph { routers: (0..r).map(|i| vec![i, (i + 1) % r]).collect(), nets: r }
+            Graph::new((0..r).map(|i| vec![i, (i + 1) % r]).collect(), r)
+        }
+        4 => {
+            // parallel: 2..3 routers ALL join net 0 and net 1 (redundant gateways: each of them has a
+            // direct route to the other subnet); sometimes one more router leads on from net 1 to net 2
+            let r = rng.range(2, 3) as usize;
+            let mut routers: Vec<Vec<usize>> = (0..r).map(|_| vec![0, 1]).collect();
+            let mut nets = 2;
+            if rng.chance(1, 3) {
+                routers.push(vec![1, 2]);
+                nets = 3;
+            }
+            Graph::new(routers, nets)
+        }
+        _ => {
+            // redundant star: 2..3 routers each join ALL of 2..3 nets
+            let r = rng.range(2, 3) as usize;
+            let s = rng.range(2, 3) as usize;
+            Graph::new((0..r).map(|_| (0..s).collect()).collect(), s)
         }
     };
+    if wide {
+        g.widen(rng);
+    }
     let nets = g.nets;
     let mut c = CaseD { mtus: vec![u16::MAX; nets], lat: vec![], nodes: vec![], units: vec![], clean: true };
     for _ in 0..nets {
@@ -499,12 +588,13 @@ fn gen_case(rng: &mut Rng) -> CaseD {
         for j in 0..k {
             // default gateway: a router attached to this net
             let att: Vec<usize> = (0..g.routers.len()).filter(|r| g.routers[*r].contains(&n)).collect();
-            let gw = if att.is_empty() { net_base(n) + 1 } else { g.router_ip(*rng.pick(&att), n) };
-            let mask = if rng.chance(1, 10) { 32 } else { 24 };
+            let gw = if att.is_empty() { g.base[n] + 1 } else { g.router_ip(*rng.pick(&att), n) };
+            let mask = if rng.chance(1, 10) { 32 } else { g.plen[n] };
             let mac = next_mac[n];
             next_mac[n] += 1;
             hosts.push(c.nodes.len());
-            c.nodes.push(NodeD::Host(HostD { net: n, mac, ip: net_base(n) + 10 + j as u32, mask, gw, port: 5000 + (c.nodes.len() as u16), late: false }));
+            let ip = if g.wide { g.edge_addr(n, rng) } else { net_base(n) + 10 + j as u32 };
+            c.nodes.push(NodeD::Host(HostD { net: n, mac, ip, mask, gw, port: 5000 + (c.nodes.len() as u16), late: false }));
             budget = budget.saturating_sub(1);
         }
     }
@@ -519,7 +609,7 @@ fn gen_case(rng: &mut Rng) -> CaseD {
         for (d, e) in g.routes(r).iter().enumerate() {
             if let Some((nh, slot, _)) = e {
                 let via = rn[*slot];
-                routes.push(RouteD { addr: net_base(d), len: 24, gw: nh.map(|y| g.router_ip(y, via)), slot: *slot as u32 });
+                routes.push(RouteD { addr: g.base[d], len: g.plen[d], gw: nh.map(|y| g.router_ip(y, via)), slot: *slot as u32 });
             }
         }
         c.nodes.push(NodeD::Router(RouterD { slots, routes }));
@@ -571,7 +661,7 @@ fn gen_case(rng: &mut Rng) -> CaseD {
                     if !rd.routes.is_empty() {
                         let i = rng.below(rd.routes.len() as u64) as usize;
                         let via = rn[rd.routes[i].slot as usize];
-                        rd.routes[i].gw = Some(net_base(via) + 200);
+                        rd.routes[i].gw = Some(g.nobody(via));
                     }
                 }
                 4 => {
@@ -654,7 +744,7 @@ fn gen_case(rng: &mut Rng) -> CaseD {
                         RouteD { addr, len, gw: rt.gw, slot: rt.slot }
                     }
                     3 | 4 if !others.is_empty() => RouteD { addr, len, gw: Some(g.router_ip(*rng.pick(&others), via)), slot: slot as u32 },
-                    5 => RouteD { addr, len, gw: Some(net_base(via) + 200), slot: slot as u32 },
+                    5 => RouteD { addr, len, gw: Some(g.nobody(via)), slot: slot as u32 },
                     _ => RouteD { addr, len, gw: None, slot: slot as u32 },
                 };
                 rd.routes.push(e);
@@ -664,7 +754,7 @@ fn gen_case(rng: &mut Rng) -> CaseD {
                 let mut e = rng.pick(&rd.routes).clone();
                 let slot = rng.below(rn.len() as u64) as usize;
                 e.slot = slot as u32;
-                e.gw = if rng.chance(1, 2) { None } else { Some(net_base(rn[slot]) + 1 + rng.below(g.routers.len() as u64) as u32) };
+                e.gw = if rng.chance(1, 2) { None } else { Some(g.router_ip(rng.below(g.routers.len() as u64) as usize, rn[slot])) };
                 rd.routes.push(e);
             }
             if rng.chance(1, 2) {
@@ -715,14 +805,14 @@ fn gen_case(rng: &mut Rng) -> CaseD {
             let far: Vec<usize> = other.iter().cloned().filter(|x| matches!(&c.nodes[*x], NodeD::Host(h) if h.net != src.net)).collect();
             let pool = if !far.is_empty() && rng.chance(4, 5) { far } else { other };
             if pool.is_empty() {
-                (net_base(src.net) + 99, None)
+                (g.nobody2(src.net), None)
             } else {
                 let d = *rng.pick(&pool);
                 let NodeD::Host(dh) = &c.nodes[d] else { unreachable!() };
                 (dh.ip, Some(d))
             }
         } else if dk < 16 {
-            (net_base(rng.below(nets as u64) as usize) + 99, None) // nobody there
+            (g.nobody2(rng.below(nets as u64) as usize), None) // nobody there
         } else if dk < 18 {
             (net_base(nets + 3) + 10, None) // unknown subnet
         } else if dk < 19 {
@@ -732,7 +822,8 @@ fn gen_case(rng: &mut Rng) -> CaseD {
         } else {
             (src.ip, Some(hs)) // itself
         };
-        let udp = rng.chance(1, 3);
+        // the udp path is the one through `Ipv4::open_for_sending`
+        let udp = if g.wide { rng.chance(1, 2) } else { rng.chance(1, 3) };
         let dport = match dhost {
             Some(d) => {
                 let NodeD::Host(dh) = &c.nodes[d] else { unreachable!() };
@@ -1169,6 +1260,12 @@ fn run_case(c: &CaseD, upto: usize) -> CaseReport {
         }
     }
     let is_router = |i: usize| matches!(c.nodes[i], NodeD::Router(_));
+    // coverage of the wide address plan / redundant gateways
+    let wide_plan = c.nodes.iter().any(|n| matches!(n, NodeD::Host(h) if (16..24).contains(&h.mask)));
+    if wide_plan {
+        rep.count("topo.wide-subnets");
+    }
+    let routers_on = |net: usize| c.nodes.iter().filter(|n| matches!(n, NodeD::Router(r) if r.slots.iter().any(|s| s.0 == net))).count();
     let mut crossed = false;
     let unit_lines: Vec<String> = lines.iter().filter(|l| ends_unit(l)).cloned().collect();
     // late hosts that have not claimed their address yet; destinations a datagram failed to reach
@@ -1267,6 +1364,20 @@ fn run_case(c: &CaseD, upto: usize) -> CaseReport {
             let t0 = if s.udp { w.first().map(|x| x.0 as u32).unwrap_or(30) } else { s.ttl as u32 };
             let life = t0.max(1) as usize;
             rep.count(&format!("hops.{}", w.len().min(12)));
+            if let NodeD::Host(sh) = &c.nodes[s.h] {
+                // routers on the sender's subnet that have a route for the destination
+                let with_route = c.nodes.iter().filter(|n| matches!(n, NodeD::Router(r) if r.slots.iter().any(|x| x.0 == sh.net) && ref_lookup(&r.routes, s.dst).is_some())).count();
+                rep.count(&format!("send.routers-on-sender-subnet-with-route.{}", with_route.min(3)));
+                let _ = routers_on(sh.net);
+                if wide_plan {
+                    let last = s.dst & 0xff;
+                    let edge = match last { 255 => "255", 0 => "0", 254 => "254", 1 => "1", _ => "other" };
+                    rep.count(&format!("send.wide.{}.dst-last-octet-{}", if s.udp { "udp-path" } else { "raw-path" }, edge));
+                    if s.udp && last == 255 && with_route >= 2 && s.expect.is_some() {
+                        rep.count("send.wide.udp-path.dst255.two-gateways.expected-once");
+                    }
+                }
+            }
             if w.len() >= 2 {
                 crossed = true;
             }
